@@ -6,7 +6,7 @@ LEVEL = "proof"
 RULE = ("cases = pairs (A,B) of tree automata over a ranked alphabet {a/0,b/0,g/1,f/2}(+h/3) loaded into both BDD encodings through Timbuk text: corpus "
         "(incl. the D9 pair); complete slice (all A with <=2 states,<=2 rules x all B with 1 state,<=2 rules; sampled in the quick tier); targeted (languages differing only in a leaf two or more levels down (several refinement rounds), child "
         "state reached with two incomparable macro-states under a binary rule, quotient pairs, near-miss pairs, missing leaf symbols, useless states; coherent defective copies and coinductive traps = a positive answer obtained under a cyclic hypothesis that is refuted later and asked for again; operands that are two copies of one loaded automaton with their own final states); random "
-        "pairs up to 4+4 states; every case runs 4 top-down + 3 bottom-up selections (the bottom-up upward selection "with simulation", which runs on the caller's own prepared objects, is asked three times on the same objects with copy assignments in between); a subset additionally runs all 128 flag words on both encodings; a selection exceeding the per-case time limit (2 s) is inconclusive. "
+        "pairs up to 4+4 states; every case runs 4 top-down + 3 bottom-up selections (the bottom-up upward selection with the simulation flag, which runs on the caller's own prepared objects, is asked three times on the same objects with copy assignments in between); a subset additionally runs all 128 flag words on both encodings; a selection exceeding the per-case time limit (2 s) is inconclusive. "
         "Non-trivial = both languages non-empty; distinct by the pair")
 EXHAUSTIVE_SLICES = "thorough tier only: all A with <=2 states,<=2 rules x all B with 1 state,<=2 rules over {a/0,b/0,g/1,f/2}; flag sweep: all 128 words x 2 encodings on the sweep cases"
 TRUSTED_BASE = [
